@@ -29,6 +29,16 @@ CLAIMS = {
    design_ref="DESIGN.md section 5 C18, section 8",
    note=COMMON_NOTE + "Known finding clean:id-wraps-2^64 (digit strings >= 2^64 act on the number modulo 2^64) is listed in known_findings.json. qmail-lspawn shares spawn.c; its user lookup is C11. cleanuppid() (stale pid files) is outside this model.",
    technique="Coq proof (case analysis of the validation functions, induction over the report stream) + extracted-model differential tie under an LD_PRELOAD interposer"),
+ "C10": dict(category="proof",
+   text="Theorem rewrite_eq_spec: for every configuration (envnoathost, locals, percenthack, virtualdomains as case-insensitive maps) and every recipient byte string, the transcription of qmail-send.c rewrite()'s index loops equals an independently written statement of the documented rules (default host; percent hack repeated while the exposed domain is listed; locals on the domain after the last @; full address, domain, dot-suffixes longest first, catch-all; empty tag = remote). Plus the VERP sender expansion. The model (including control_readfile/constmap_init parsing) is tied on every run to the real rewrite()/senderadd() behind the real getcontrols()/regetcontrols(), and the declarative spec is evaluated as oracle on the real answers, before and after a re-read (HUP).",
+   design_ref="DESIGN.md section 5 C10, section 8",
+   note=COMMON_NOTE + "Duplicate keys in a control file (last one wins) and NUL bytes in control files are outside the domain. The order-preserving partition of a message's recipients by todo_do() is not part of this check.",
+   technique="Coq proof (index-loop transcription = declarative key-list spec) + extracted-model differential tie through the real control-file parsers"),
+ "C14": dict(category="proof",
+   text="Theorems: for all recipient and report bytes the text addbounce() appends has exactly one paragraph start, begins <recipient>: and ends with a blank line, so a notice for n failures has exactly n paragraphs (report text cannot forge recipient paragraphs); every notice has a strictly smaller generation (2 ordinary, 1 bounce, 0 double bounce) than the message it reports on, so chains end after the double bounce; single bounces go from the empty sender to the VERP-stripped original sender, double bounces from #@[] to the postmaster address, a failing double bounce is discarded. Tied on every run to the real addbounce()/stripvdomprepend()/injectbounce() (real bounce files, real control files, stand-in qmail-queue capturing the envelope, queue exit codes 0/53/31).",
+   design_ref="DESIGN.md section 5 C14, section 8",
+   note=COMMON_NOTE + "The notice header (From/To/Subject, date) is checked only for containing the paragraphs and the original message; daemon-level ordering (messdone) is C03's.",
+   technique="Coq proof (left-to-right characterisation of the in-place sanitising loop; paragraph-start counter invariant; rank function) + extracted-model differential tie"),
 }
 
 REASON_PENDING = "not yet claimed: model/correspondence for this property is still being built (DESIGN.md section 7); no check is registered for it"
